@@ -23,7 +23,7 @@ import (
 func TestMain(m *testing.M) {
 	vh.Rule("both login flows against a scripted peer. exhaustive: the valid reply scripts (plain: LOGINACK(SUCCEED) DONE(FINAL); encrypted: LOGINACK(NEGOTIATE) MSG(ENCRYPT4) PARAMFMT(INT4,LONGBINARY,LONGBINARY) PARAMS(1, PEM PKCS#1 key, nonce) DONE, then LOGINACK(SUCCEED) CAPABILITY DONE(FINAL), with ENVCHANGE(PACKSIZE) and info EEDs in between) and EVERY single-edit mutation of them: delete / duplicate / swap-adjacent each package, alter each field (ack status, msg id, parameter count, each parameter type, cipher-suite value, key truncated/garbled/empty/wrong PEM type, nonce empty/long, capability masks all zero, DONE status bits), peer going silent in the middle of either response; rapid: random multi-edit scripts, all packetisations, RSA 1024/1536/2048, nonces 0..64 bytes, 0..3 remote servers. Oracle: a reference acceptor written from the property text classifies each script; Login must return nil iff ACCEPT, an error (never a panic, never later than context deadline + 3 s) otherwise; after success Conn.Caps equals the server's masks and PacketSize() the announced size. Non-trivial: the script differs from the valid one; distinct by the script")
 	vh.Assume("packages after the final DONE of a response are out of scope (next response); a key followed by trailing bytes, an empty nonce and capability packages that lack a mask type are not judged; the password and the 32-byte session key fit the key (nonce+secret <= OAEP capacity); context deadline 2 s for complete scripts (never reached on a correct tree), 300 ms where the peer goes silent")
-	vh.Rule("also: cipher suites 3, 5, 257, 65537, -1, ...; informational message / environment change / packet size announcement inserted at every position of both replies (accepted: the channel filters them); the valid replies of the other flow (rejected)")
+	vh.Rule("also: cipher suites 3, 5, 257, 65537, -1, ...; informational message / environment change / packet size announcement inserted at every position of both replies (accepted: the channel filters them); the valid replies of the other flow (rejected); an additional LOGINACK of every status (FAIL, NEGOTIATE, SUCCEED, undefined values) and an additional DONE (more / final) inserted at every position of both replies")
 	vh.Main(m, "C08")
 }
 
@@ -38,6 +38,10 @@ type c08Case struct {
 
 func lbCol(name string) rc.Col {
 	return rc.Col{Name: name, T: rc.TLongBinary, MaxLen: 2147483647}
+}
+
+func extraAck(st uint8) rc.P {
+	return rc.P{LoginAck: &rc.LoginAck{Status: st, Version: [4]byte{5, 0, 0, 0}, Name: "ASE", ProgVer: [4]byte{16, 0, 0, 0}}}
 }
 
 func validScript(plain bool, key loginpeer.Key, nonce []byte, wideFmt bool, extras bool, packSize int) loginpeer.Script {
@@ -613,9 +617,18 @@ func editsFor(s loginpeer.Script, plain bool) []edit {
 			for _, x := range []rc.P{{Msg: &rc.Msg{ID: 13}}, {RetStat: &i32}, {EED: &rc.EED{MsgNumber: 4002, Class: 14, Msg: "Login failed."}},
 				{EED: &rc.EED{MsgNumber: 5703, Class: 10, Status: rc.EEDInfo, Msg: "Changed language setting to 'us_english'.", Server: "ASE"}},
 				{Env: &rc.EnvChange{Members: []rc.EnvMember{{Type: rc.EnvLang, New: "us_english", Old: ""}}}},
-				{Env: &rc.EnvChange{Members: []rc.EnvMember{{Type: rc.EnvPackSize, New: "2048", Old: "512"}}}}} {
+				{Env: &rc.EnvChange{Members: []rc.EnvMember{{Type: rc.EnvPackSize, New: "2048", Old: "512"}}}},
+				// an additional acknowledgement (not a copy of one that is there) with each kind of status
+				extraAck(rc.LogFail), extraAck(rc.LogNegotiate), extraAck(0), extraAck(8), extraAck(rc.LogSucceed),
+				{Done: &rc.Done{Tok: rc.TokDone, Status: rc.DoneMore}}, {Done: &rc.Done{Tok: rc.TokDone, Status: rc.DoneFinal}}} {
 				x := x
-				es = append(es, edit{fmt.Sprintf("insert:R%d[%d]=%s", r, i, pkggen.KindOf(x)), func(s *loginpeer.Script) {
+				lbl := pkggen.KindOf(x)
+				if x.LoginAck != nil {
+					lbl = fmt.Sprintf("loginack(%d)", x.LoginAck.Status)
+				} else if x.Done != nil {
+					lbl = fmt.Sprintf("done(%#x)", x.Done.Status)
+				}
+				es = append(es, edit{fmt.Sprintf("insert:R%d[%d]=%s", r, i, lbl), func(s *loginpeer.Script) {
 					p := resp(s, r)
 					*p = append(append(clone((*p)[:i]), x), (*p)[i:]...)
 				}})
